@@ -23,11 +23,14 @@ KANI_QUICK = ['unchanged_returns_exactly_the_loader_bytes', 'changed_returns_not
 KANI_THOROUGH = KANI_QUICK + ['only_utf8_bom_len4', 'only_utf8_bom_len5', 'only_utf8_bom_len6', 'unchanged_len8']
 
 def cubes(tier, has_fc):
-    return [{'part': 'size'}, {'part': 'charset'}, {'part': 'parse-forwarding'}, {'part': 'jsr-content-load'}, {'part': 'kani', 'engine': 'kani', 'harnesses': KANI_QUICK if tier == 'quick' else KANI_THOROUGH}]
+    return [{'part': 'size'}, {'part': 'charset'}, {'part': 'parse-forwarding'}, {'part': 'jsr-content-load'}, {'part': 'jsr-cached-probe'}, {'part': 'kani', 'engine': 'kani', 'harnesses': KANI_QUICK if tier == 'quick' else KANI_THOROUGH}]
 def cube_name(c): return c['part']
 
 def build(mir, cube):
     from ..ops import ev
+    if cube['part'] == 'jsr-cached-probe':
+        from . import c05
+        return c05.build(mir, {'asset': False, 'from': 'jsr', 'info': True})
     if cube['part'] == 'jsr-content-load':
         from . import contentload
         return contentload.build(mir, cube)
